@@ -603,7 +603,8 @@ impl Simk {
             return -libc::ENOMEM;
         }
         assert!(fd < ISSUED_FD_BASE, "simk: ring fd {fd} collides with issued range");
-        let sq_len = page_round((SQ_FLAGS + 8) as usize);
+        // (Room for the submission index array at offset 512 when the ring has one.)
+        let sq_len = page_round(((SQ_FLAGS + 8) as usize).max(if f & SETUP_NO_SQARRAY == 0 { 512 + sq as usize * 4 } else { 0 }));
         let cq_len = page_round(CQ_CQES as usize + cq as usize * 16);
         let sqes_len = page_round(sq as usize * 64);
         let (sq_ptr, cq_ptr, sqes_ptr);
@@ -868,7 +869,21 @@ impl Simk {
                 self.violations.push(("sq-overrun".to_string(), msg));
             }
             let r = &self.rings[ring];
-            let index = head & (r.sq_entries - 1);
+            let mut index = head & (r.sq_entries - 1);
+            if r.flags & SETUP_NO_SQARRAY == 0 {
+                // Without IORING_SETUP_NO_SQARRAY the kernel goes through the index array in the SQ ring
+                // (offset `sq_off.array`, 512 here): entry `head & mask` names the submission entry.
+                let arr = unsafe { (r.sq_ptr as *const u8).add(512 + 4 * index as usize) as *const u32 };
+                let named = unsafe { std::ptr::read_volatile(arr) };
+                if named >= r.sq_entries {
+                    // The kernel drops such an entry (and counts it in `dropped`); nothing is issued.
+                    r.sq_word(SQ_HEAD).store(head.wrapping_add(1), Ordering::SeqCst);
+                    self.violations.push(("sq-bad-index".to_string(), format!("the submission index array names entry {named} of {}", r.sq_entries)));
+                    consumed += 1;
+                    continue;
+                }
+                index = named;
+            }
             let sqe = unsafe { std::ptr::read_volatile(r.sqe_slot(index)) };
             r.sq_word(SQ_HEAD).store(head.wrapping_add(1), Ordering::SeqCst);
             let serial = self.next_serial;
